@@ -3753,7 +3753,7 @@ class Client:
                     elif m.qos == 2:
                         # self._inflight_messages = self._inflight_messages + 1
                         if self._check_clean_session():
-                            if m.state != mqtt_ms_publish:
+                            if m.state not in (mqtt_ms_publish, mqtt_ms_queued):
                                 m.dup = True
                             m.state = mqtt_ms_publish
                         else:
